@@ -501,6 +501,7 @@ func main() {
 	if core.Want("conc") {
 		runConcurrent(res, o.Shard, o.Shards)
 	}
+	runShared(res, o.Shard, o.Shards)
 	core.Finish(res, t0)
 }
 
@@ -512,14 +513,43 @@ func replay(path string) {
 	}
 	var a struct {
 		Replay struct {
-			Config  string `json:"config"`
-			Ops     []op   `json:"ops"`
-			Program string `json:"program"`
-			Choices []int  `json:"choices"`
+			Config  string   `json:"config"`
+			Ops     []op     `json:"ops"`
+			Program string   `json:"program"`
+			Choices []int    `json:"choices"`
+			Shared  string   `json:"shared"`
+			Start   uint16   `json:"start"`
+			Seq     []string `json:"seq"`
 		} `json:"replay"`
 	}
 	if err := json.Unmarshal(data, &a); err != nil {
 		fmt.Println(err)
+		os.Exit(2)
+	}
+	if a.Replay.Shared != "" {
+		fwd.Init()
+		for _, c := range sharedConfigs() {
+			if c.name != a.Replay.Shared {
+				continue
+			}
+			var seq []sharedPkt
+			for _, n := range a.Replay.Seq {
+				var p sharedPkt
+				if strings.HasPrefix(n, "K") {
+					p.key = true
+					n = n[1:]
+				}
+				fmt.Sscanf(n, "s%dt%d", &p.sid, &p.tid)
+				seq = append(seq, p)
+			}
+			if sig, what := sharedRun(c, a.Replay.Start, seq); sig != "" {
+				fmt.Printf("VIOLATION property=C04 replay=%s\n  signature: C04/%s\n  %s\n", path, sig, what)
+				os.Exit(1)
+			}
+			fmt.Println("replay: no violation")
+			return
+		}
+		fmt.Println("unknown shared configuration")
 		os.Exit(2)
 	}
 	if a.Replay.Program != "" {
